@@ -465,9 +465,18 @@ func c16(run *ev.Run, tier string) {
 	// string leaf of the full document gets the value "$VERIF_LEAF"; the process
 	// environment and the mapping disagree about that variable. Afterwards each
 	// leaf is either untouched or holds the mapping's value - never anything else.
-	{
+	// (also when the mapping has nothing for the variable: no fallback)
+	for _, mapped := range []string{"from-the-mapping", ""} {
 		os.Setenv("VERIF_LEAF", "from-the-process-environment")
 		c := fullConfig()
+		for _, e := range c.Contents {
+			e.Expand = true
+		}
+		for _, o := range c.Overrides {
+			for _, e := range o.Contents {
+				e.Expand = true
+			}
+		}
 		var setAll func(v reflect.Value)
 		nleaves := 0
 		setAll = func(v reflect.Value) {
@@ -514,12 +523,14 @@ func c16(run *ev.Run, tier string) {
 		setAll(reflect.ValueOf(c))
 		c.Version = "1.0.0"
 		yb, _ := yaml.Marshal(c)
-		rec := newRecorder(map[string]string{"VERIF_LEAF": "from-the-mapping"}, "")
+		rec := newRecorder(map[string]string{"VERIF_LEAF": mapped}, "")
 		cfg, perr := nfpm.ParseWithEnvMapping(strings.NewReader(string(yb)), rec.get)
 		parses++
-		run.Case(fmt.Sprintf("mapping-only|%d string leaves", nleaves), true)
+		run.Case(fmt.Sprintf("mapping-only|%d string leaves|mapping says %q", nleaves, mapped), true)
 		if perr != nil {
-			run.Violate("C16/valid-document-rejected", map[string]any{"error": perr.Error(), "doc": "every string leaf = $VERIF_LEAF"})
+			if mapped != "" { // with every leaf empty the document may well be refused
+				run.Violate("C16/valid-document-rejected", map[string]any{"error": perr.Error(), "doc": "every string leaf = $VERIF_LEAF"})
+			}
 		} else {
 			var walk func(v reflect.Value, path string)
 			walk = func(v reflect.Value, path string) {
